@@ -135,6 +135,15 @@ def step (w : List String) : String :=
         let same := if segs = specSegs N then 1 else 0
         s!"out={outLen segs} good={good} spec={same}"
     | none => "bad-op"
+  | ["sinfo", ih, pl] =>
+    match unhexS ih, pl.toNat? with
+    | some bs, some pkgLen =>
+      match standardGuards (bs.map Char.toNat) pkgLen with
+      | .ok _ _ => "ok"
+      | .err => "err"
+      | .agile => "agile"
+      | .panic => "PANIC"
+    | _, _ => "bad-op"
   | ["u16", pw] =>
     match unhexS pw with
     | some bs =>
